@@ -45,6 +45,8 @@ type cfg struct {
 	PBits   []int    `json:"pbits"`
 	Ring    string   `json:"ring"`
 	Xs      string   `json:"xs"`
+	Xe      string   `json:"xe,omitempty"`  // "" = library default (sigma 3.2, bound 19.2)
+	Ext     bool     `json:"ext,omitempty"` // coverage-audit extension (see ext.go)
 }
 
 func (c cfg) params() (rlwe.Parameters, error) {
@@ -61,11 +63,22 @@ func (c cfg) params() (rlwe.Parameters, error) {
 	case "gauss":
 		xs = ring.DiscreteGaussian{Sigma: 3.2, Bound: 19.2}
 	}
-	return rlwe.NewParametersFromLiteral(rlwe.ParametersLiteral{LogN: c.LogN, Q: c.Q, P: c.P, Xs: xs, RingType: rt, NTTFlag: true})
+	lit := rlwe.ParametersLiteral{LogN: c.LogN, Q: c.Q, P: c.P, Xs: xs, RingType: rt, NTTFlag: true}
+	if xe := c.xe(); xe != nil {
+		lit.Xe = xe
+	}
+	return rlwe.NewParametersFromLiteral(lit)
 }
 
 func (c cfg) chain() string {
-	return fmt.Sprintf("%s/%d/%v/%v/%s", c.Ring, c.LogN, c.QBits, c.PBits, c.Xs)
+	s := fmt.Sprintf("%s/%d/%v/%v/%s", c.Ring, c.LogN, c.QBits, c.PBits, c.Xs)
+	if c.Xe != "" {
+		s += "/" + c.Xe
+	}
+	if c.Ext {
+		s += "/x"
+	}
+	return s
 }
 
 var kinds = []string{"cpk", "evk", "gal", "rlk"}
@@ -143,19 +156,21 @@ func cases(tier string, seed int64) []eng.Case {
 		id := fmt.Sprintf("reject/%d/%s/q%v/p%v", i, cc.Ring, cc.QBits, cc.PBits)
 		out = append(out, eng.Case{ID: id, Sig: "C14|reject", Desc: cc, Run: func(x *eng.Ctx) { runReject(x, cc) }})
 	}
-	return out
+	return append(out, extCases(tier, seed)...)
 }
 
 func init() {
 	eng.Register(&eng.Monitor{
 		ID: "C14", Level: "exploration",
-		Rule:  "cases = (protocol in {cpk, evk, gal, rlk}) x rlwe parameter set (ring type, logN 4..6 (..8 thorough), 1..5 Q primes of equal or deliberately unequal sizes 30..60 bits, 0..2 P primes, secret distribution) x party count 1..8 (cycled so that every count occurs); inside a case evaluation-key parameters (LevelQ, LevelP, BaseTwoDecomposition 0 or 1..30) are drawn, every party (fresh or ShallowCopy-ed protocol instance) reads its own CRS instance with a common call sequence, generates its share(s) (into fresh or re-used share buffers), and the shares are aggregated under ALL permutations x ALL binary tree shapes for N<=4, all 14 shapes x 4 permutations (all 120 in the thorough tier) for N=5, 14 (50 thorough) sampled (permutation, shape) pairs above, leaves taken at random from memory or from a serialisation round trip, output aliased at random; each aggregate is compared with the harness' exact sum; the final key is checked component-wise against the ideal secret and then used by the single-party encryptor/evaluator (all Galois elements for ring degree <= 32, sampled above; both rounds of the rlk protocol); 'reject' cases feed AggregateShares / Gen*Key with mismatched Galois element, LevelQ, LevelP, BaseTwoDecomposition. distinct keys: agg/(protocol, round, chain, N, lq, lp, w, Galois element, permutation, shape) — non-trivial iff N>=2 and the plan is not the index-order left fold on in-memory shares (the only plan the stock test runs); use/(protocol, chain, N, lq, lp, w, ct level, NTT flag, Galois element) — non-trivial iff N>=2 and the worst-case bound is below Q_level/8 (so a wrong key shows as a bound violation); reject/(protocol, kind, placement) — always non-trivial.",
+		Rule:  "cases = (protocol in {cpk, evk, gal, rlk}) x rlwe parameter set (ring type, logN 4..6 (..8 thorough), 1..5 Q primes of equal or deliberately unequal sizes 30..60 bits, 0..2 P primes, secret distribution) x party count 1..8 (cycled so that every count occurs); inside a case evaluation-key parameters (LevelQ, LevelP, BaseTwoDecomposition 0 or 1..30) are drawn, every party (fresh or ShallowCopy-ed protocol instance) reads its own CRS instance with a common call sequence, generates its share(s) (into fresh or re-used share buffers), and the shares are aggregated under ALL permutations x ALL binary tree shapes for N<=4, all 14 shapes x 4 permutations (all 120 in the thorough tier) for N=5, 14 (50 thorough) sampled (permutation, shape) pairs above, leaves taken at random from memory or from a serialisation round trip, output aliased at random; each aggregate is compared with the harness' exact sum; the final key is checked component-wise against the ideal secret and then used by the single-party encryptor/evaluator (all Galois elements for ring degree <= 32, sampled above; both rounds of the rlk protocol); 'reject' cases feed AggregateShares / Gen*Key with mismatched Galois element, LevelQ, LevelP, BaseTwoDecomposition. distinct keys: agg/(protocol, round, chain, N, lq, lp, w, Galois element, permutation, shape) — non-trivial iff N>=2 and the plan is not the index-order left fold on in-memory shares (the only plan the stock test runs); use/(protocol, chain, N, lq, lp, w, ct level, NTT flag, Galois element) — non-trivial iff N>=2 and the worst-case bound is below Q_level/8 (so a wrong key shows as a bound violation); reject/(protocol, kind, placement) — always non-trivial. Coverage-audit extension: 'x/' cases run the same four drivers on parameter sets the base generator does not draw (8..10 Q with 3..4 P primes, more P than Q primes, 60/61-bit next to 30-bit primes, a single modulus, conjugate-invariant ring with Gaussian secret, error distributions: Gaussian cut at 2 sigma / 1.5 sigma, sigma 40, ternary, fixed-weight ternary; 1..4 parties when the error distribution is non-default) with evaluation-key parameters at the edges of the API (no EvaluationKeyParameters / nil fields, LevelP=-1 under parameters with P, BaseTwoDecomposition>0 with LevelP>0, LevelQ=0), share buffers / ephemeral keys / final key objects that held other data before, shares travelling through WriteTo/ReadFrom (alone through plain io.Writer/io.Reader and back to back through one buffered stream) into receive buffers of zero, equal or other shape, and a CRS that is rewound with Reset and replayed (their distinct keys carry the suffix /x in the chain); 'xreject/' cases extend the refusal clause to share-vs-key decomposition at finalisation, share-vs-too-small-CRP in GenShare and finalisation, round two and finalisation of the relinearisation protocol, and to the receiver (polynomials and Galois tag) being left intact by a refused call, each with positive controls.",
 		Cases: cases,
 		Assumptions: []string{
 			"worst-case bounds: |e_key|inf <= N*B for collective pk/evk/Galois keys; <= 2*c*(N*H)*(N*B)+N*B for the collective relinearisation key (the documented noise form s*e0+u*e1+e2; c=2 in the conjugate-invariant ring); B=floor(bound(Xe)+1/2), H=worst-case l1 norm of one secret; key-switch bound as in C04 with B replaced by the key error and |s|_1 by N*H",
 			"the ring arithmetic used to evaluate phases is the one judged by C01; the exact share sums and the CRT lifts are harness-side (uint64/math/big)",
 			"moduli inside the documented sizes (Q primes <= 60 bits, P primes <= 61 bits as used by shipped parameter sets)",
 			"statistical checks: pooled key error std within [1/2,2] of sqrt(N)*sigma on >= 2048 coefficients; CRP mean within 6 standard errors of 1/2",
+			"x/ cases with a non-default error distribution: one sample of a Gaussian Xe never exceeds floor(bound+1/2) and one sample of a ternary Xe never exceeds 1 in absolute value (judged by C17), so B is 6 / 12 / 240 / 1 there; the statistical pool check is skipped for sigma < 3",
+			"xreject/: a reference-polynomial matrix LARGER than the share (more moduli / digits, of which every party uses the same prefix) is not demanded to be refused; only one that is too small for the share is",
 		},
 	})
 }
